@@ -20,7 +20,7 @@ for pid in ids:
                           "text": cfg.get("level_text", "bounded symbolic model checking of the real code: the harness drives the real functions (sliced from /repo on every run) with solver variables for inputs / versions / timestamps / scheduler choices / crash points; every path is explored and every check is discharged by cvc5 (unsat = holds for all inputs on that path) within the stated shape bounds; counterexamples are replayed natively before being reported"),
                           "design_ref": "DESIGN.md §4 " + pid},
         "level_note": "trusted: rustc MIR dump, slicer rewrites, environment shims (listed in the evidence file), mirsym std models, cvc5. Bounds: " + str(cfg.get("bounds", {}).get("quick", ""))[:600],
-        "technique": cfg.get("technique", "symbolic execution of rustc MIR of the real code + SMT (cvc5 strings/ints), bounded; schedules and crash points as solver-visible choices"),
+        "technique": cfg.get("technique", "symbolic execution of rustc MIR of the real code + SMT (cvc5 strings/ints/bit-vectors), bounded; schedules, crash points and fault indices as solver-visible choices" + ("; plus a Kani/CBMC proof harness (%s) over the full machine range of an integer kernel" % ", ".join(k["name"] for k in cfg["kani"]) if cfg.get("kani") else "")),
     })
 na = [{"property_id": pid, "reason": NA[pid]} for pid in ids if pid not in props.PROPS]
 man = {
@@ -29,6 +29,7 @@ man = {
  "hooks": {"guard": "none", "enable": "no source hooks: every check slices /repo/src/lib into a generated crate (build/nsym) and dumps its MIR", "baseline_off_cmd": "cd /repo && cargo nextest run --workspace --no-fail-fast --test-threads 8 --offline || cargo test --workspace --no-fail-fast --offline", "source_commits": [], "add_only": True},
  "engines": [
   {"name": "mirsym", "path": "vf/", "serves_properties": [c["property_id"] for c in checks], "kind_free_text": "symbolic executor over rustc MIR (-Zunpretty=mir) of the sliced real sources + shim environment; cvc5 decides branches and checks; cooperative-thread scheduler and crash switch as solver-visible choices; native replay of every counterexample"},
+  {"name": "kani", "path": "kani/", "serves_properties": [pid for pid in ids if pid in props.PROPS and props.PROPS[pid].get("kani")], "kind_free_text": "Kani 0.68 / CBMC 6.11 proof harnesses (kani/twins.rs) compiled into a copy of the same generated crate: bit-precise twins of integer kernels (version rule, retry rule), unwinding assertions on"},
  ],
  "checks": checks,
  "notes": "exit 0 = held on everything explored (KNOWN-FINDING lines for listed genuine defects), 1 = VIOLATION (replayed natively), 2 = inconclusive (unsupported construct / solver unknown / budget) - never reported as success. Known findings: /verif/known_findings.json.",
